@@ -64,7 +64,13 @@ var boundedRegistry = map[string][]boundedSpec{
 		{Name: "integers in every position", Pkg: ".", Template: "json_int_positions.go",
 			What: "stands in for the choice of emitter and width made by the reflection-driven compilers (trusted in the contracts): every integer kind at its boundary values as value, pointer, struct field (plain, omitempty, string), slice and array element, map key and map value, encoded and decoded, against encoding/json"}},
 	"C04": {{Name: "string escaping and unescaping against encoding/json", Pkg: ".", Template: "json_strings.go",
-		What: "stands in for the string half of the round trip, which is not under a functional contract (the integer leaves are proved): every valid UTF-8 string of the bounded family is encoded and decoded back as value, struct field, map key and slice element through Marshal, MarshalIndent and Encoder/Decoder"}},
+		What: "stands in for the string half of the round trip, which is not under a functional contract (the integer leaves are proved): every valid UTF-8 string of the bounded family is encoded and decoded back as value, struct field, map key and slice element through Marshal, MarshalIndent and Encoder/Decoder"},
+		{Name: "round trip of non-integer, non-string values", Pkg: ".", Template: "json_roundtrip.go",
+			What: "stands in for the value kinds whose conversion is delegated (floats: strconv; byte slices: encoding/base64) or compiled by the trusted reflection-driven compilers (containers, structs, pointers, interfaces): a bounded family of such values is round-tripped through every entry point"},
+		{Name: "integers in every position", Pkg: ".", Template: "json_int_positions.go",
+			What: "stands in for the emitter and width the compiled program uses for an integer in a given position (the leaves are proved for the width they are given): every integer kind at its boundary values in every position, encoded and decoded back"}},
+	"C14": {{Name: "run-time created types", Pkg: ".", Template: "json_typecache.go",
+		What: "stands in for the copy-on-write maps that both caches use for types outside the linker's address window (maps holding pointers are outside the verifier's subset): run-time created types of the same layout are encoded and decoded in interleaved orders"}},
 	"C17": {{Name: "string escaping and unescaping against encoding/json", Pkg: ".", Template: "json_strings.go",
 		What: "stands in for WHICH bytes the string emitters write and WHICH character an escape decodes to: the contracts prove that no byte needing an escape is copied, that exactly well-formed UTF-8 is reported valid and that the unescaper is memory-safe on validated bodies, not the escape table or the unescaped value"}},
 }
